@@ -65,7 +65,7 @@ from predicate.tuple_of_predicate import TupleOfPredicate  # noqa: E402
 
 NONE_CODE = 100000
 STR_BASE = 200000
-STR_POOL = ["", "10", "9", "a", "ab", "b", "bar", "foo", "z"]  # sorted; "" has code STR_BASE; "10" < "9": print like the numbers, ordered differently
+STR_POOL = ["", "10", "9", "a", "ab", "b", "bar", "cafe\u0301", "caf\u00e9", "foo", "z"]  # incl. a decomposed and a composed spelling of one word: different strings  # sorted; "" has code STR_BASE; "10" < "9": print like the numbers, ordered differently
 assert STR_POOL == sorted(STR_POOL)
 
 
